@@ -19,8 +19,8 @@ def has(d, t):
 
 
 def ntc(d):
-    """the concrete instantiation of the newtype used by the driver."""
-    return "Nt%s" % d.get("gen_use", "")
+    """the concrete instantiation of the newtype used by the driver (a type alias in the module)."""
+    return "NtC"
 
 
 def render_call(d):
@@ -91,6 +91,7 @@ def render_module(d):
     src = PRELUDE + render_decl_only(d)
     inner = inner_type(d).replace("T", "i32") if d.get("gen_decl") else inner_type(d)
     src += "pub type Inner = %s;\n" % inner
+    src += "pub type NtC = Nt%s;\n" % d.get("gen_use", "")
     src += render_call(d)
     return src
 
